@@ -208,6 +208,32 @@ def handleMatch (j : Json) : Json :=
   Json.mkObj [("basic", Json.bool (Query.matchBasic g q)), ("some", Json.bool (Query.matchSome g q)),
               ("g_has_sac", Json.bool (Model.firstOfType g Gen.frontCfg.tSAC).isSome), ("q_has_sac", Json.bool (Model.firstOfType q Gen.frontCfg.tSAC).isSome)]
 
+def decodeGraph (j : Json) (k : String) : Embed.G :=
+  match j.getObjVal? k with
+  | .ok o =>
+    let recipes : List Recipe := match o.getObjVal? "recipes" with
+      | .ok (Json.arr a) => a.toList.map (fun r => match r with
+          | Json.arr b => b.toList.filterMap (fun x => match x with
+              | Json.arr #[Json.str t, ty] => (ty.getNat?.toOption).map (fun n => (t.toList, n))
+              | _ => none)
+          | _ => [])
+      | _ => []
+    let edges : List Embed.Edge := match o.getObjVal? "edges" with
+      | .ok (Json.arr a) => a.toList.filterMap (fun x => match x with
+          | Json.arr #[p, c, Json.str l] => some ((p.getNat?.toOption).getD 0, (c.getNat?.toOption).getD 0, l.toList)
+          | _ => none)
+      | _ => []
+    ⟨recipes, edges⟩
+  | _ => ⟨[], []⟩
+
+/-- `count`: the Model of `Glycan.count(query, match_nodes=True, …)` on the trees and recipes the code built -/
+def handleCount (j : Json) : Json :=
+  let g := decodeGraph j "g"
+  let q := decodeGraph j "q"
+  let cnt (node : Recipe → Recipe → Bool) (e : Bool) := Json.num (Embed.count node (Embed.edgeEq e) g q)
+  Json.mkObj [("basic", cnt Query.matchBasic false), ("basic_edges", cnt Query.matchBasic true),
+              ("some", cnt Query.matchSome false), ("some_edges", cnt Query.matchSome true)]
+
 def handleStart (j : Json) : Json :=
   let numbers : List Int := match j.getObjVal? "numbers" with
     | .ok (Json.arr a) => a.toList.map (fun x => (x.getInt?.toOption).getD 0)
@@ -357,6 +383,7 @@ def handle (line : String) : Json :=
     | some "observed" => handleObserved j
     | some "react" => handleReact j
     | some "plan" => handlePlan j
+    | some "count" => handleCount j
     | some "ping" => Json.mkObj [("pong", Json.bool true)]
     | _ => Json.mkObj [("error", "unknown op")]
 
